@@ -456,6 +456,7 @@ class C05(Property):
                 "\n".join(replies), "\n" if replies else ""))
         _, model = runner.driver("".join(blocks))
         combos = set()
+        nbytes_cmp = 0
         for k, (insts, ans) in expected.items():
             job = jobs[k]
             shown = " ".join(job["cmd"])
@@ -485,8 +486,18 @@ class C05(Property):
             elif mans[:1] != [ans]:
                 findings.append(Finding("model", None, "the answer printed by the CLI differs from the answer of the composed Lean model on the same SAT replies: impl %r model %r | %s" % (ans, mans[:1], shown[-150:]),
                                         "cli/%s · printed answer differs from the model" % entry, {"cmd": shown, "stdout": out[:200]}))
+            else:
+                # byte for byte: what the binary printed = the text of the model (Model/CliOut.lean: stdoutIccma), the subject of
+                # the theorem cli_stdout_on_readable_file
+                mso = [l[7:] for l in m if l.startswith("stdout ")]
+                real = results[k][1].encode().hex()
+                nbytes_cmp += 1
+                if mso[:1] != [real]:
+                    findings.append(Finding("model", None, "the bytes printed on stdout differ from the text of the Lean model: impl %r model %r | %s" % (
+                        results[k][1][:80], bytes.fromhex(mso[0]).decode(errors="replace")[:80] if mso else None, shown[-150:]),
+                        "cli/%s · stdout bytes differ from the model" % entry, {"cmd": shown, "stdout": results[k][1][:200], "theorem": "correspondence cli family (Model/CliOut.lean: stdoutIccma)"}))
         return findings, {"cli_dispatch_runs": len(jobs), "cli_dispatch_sat_calls_compared": ncalls, "cli_dispatch_combinations": len(combos),
-                          "cli_dispatch_frameworks": len(fws)}
+                          "cli_dispatch_frameworks": len(fws), "cli_stdout_bytes_compared_with_model": nbytes_cmp}
 
     # ---- one query under every configuration of the command line (C06) ----
     def config_matrix(self, ctx, rng):
